@@ -44,14 +44,14 @@ var MutationKinds = []string{
 	// R3 output / input positions
 	"field-returns-input", "arg-takes-output", "inputfield-takes-output", "dirarg-takes-output", "schema-root-input-type",
 	// R4 interface conformance
-	"iface-missing-field", "iface-wrong-type", "iface-missing-arg", "iface-extra-required-arg", "iface-arg-type-mismatch", "implements-non-interface",
+	"iface-missing-field", "iface-wrong-type", "iface-missing-arg", "iface-extra-required-arg", "iface-arg-type-mismatch", "iface-arg-nonnull-narrowed", "implements-non-interface",
 	// R5 unions
 	"union-member-not-object", "union-empty",
 	// R6 non-empty composites
 	"empty-object", "empty-interface", "empty-enum", "empty-input",
 	// R7 directive uses
 	"dir-wrong-location-type", "dir-wrong-location-enumvalue", "dir-wrong-location-field", "dir-wrong-location-arg", "dir-wrong-location-inputfield",
-	"dir-unknown-arg-type", "dir-unknown-arg-field", "dir-uncoercible-arg-type", "dir-uncoercible-arg-field", "dir-uncoercible-arg-enumvalue", "dir-uncoercible-arg-null",
+	"dir-unknown-arg-type", "dir-unknown-arg-field", "dir-uncoercible-arg-type", "dir-uncoercible-arg-field", "dir-uncoercible-arg-enumvalue", "dir-uncoercible-arg-null", "dir-unknown-arg-noargs",
 	// R8 directive definition cycles
 	"dir-cycle-self", "dir-cycle-two", "dir-cycle-lasso", "ref-directive-named-like-type", "schema-ext-dir-no-roots", "iface-shared-field-second-unsatisfied",
 }
@@ -407,7 +407,7 @@ func Mutate(t *rapid.T, base *hx.Schema, kind string) (s *hx.Schema, m Mutation,
 		deepen(d.Args[0].Type)
 		s.Dirs = append(s.Dirs, d)
 		m.Names, m.Position = []string{"mut", "p"}, "directive-argument"
-	case "iface-missing-field", "iface-wrong-type", "iface-missing-arg", "iface-extra-required-arg", "iface-arg-type-mismatch":
+	case "iface-missing-field", "iface-wrong-type", "iface-missing-arg", "iface-extra-required-arg", "iface-arg-type-mismatch", "iface-arg-nonnull-narrowed":
 		type impl struct {
 			o  *hx.TypeDef
 			it *hx.TypeDef
@@ -483,6 +483,24 @@ func Mutate(t *rapid.T, base *hx.Schema, kind string) (s *hx.Schema, m Mutation,
 			}
 			retarget(oa.Type, other)
 			oa.Default = nil
+		case "iface-arg-nonnull-narrowed":
+			// the implementer demands more of a shared argument than the interface does: a non-null
+			// wrapper added at some level (arguments have to be declared with the same type)
+			if len(c.f.Args) == 0 {
+				return nil, m, false
+			}
+			an := c.f.Args[pick(len(c.f.Args), "arg")].Name
+			oa := of.Arg(an)
+			var levels []*hx.TRef
+			for tr := oa.Type; tr != nil; tr = tr.List {
+				if !tr.NonNull {
+					levels = append(levels, tr)
+				}
+			}
+			if len(levels) == 0 {
+				return nil, m, false
+			}
+			levels[pick(len(levels), "level")].NonNull = true
 		}
 		m.Names, m.Position = []string{c.f.Name, c.o.Name, c.it.Name}, "interface-field"
 	case "implements-non-interface":
@@ -592,6 +610,12 @@ func Mutate(t *rapid.T, base *hx.Schema, kind string) (s *hx.Schema, m Mutation,
 			du.Args = []hx.KV{{Key: "p", V: hx.Str("not a number")}}
 		}
 		td.Dirs = append(td.Dirs, du)
+		m.Names, m.Position = []string{"mut", td.Name}, "type:"+td.Kind
+	case "dir-unknown-arg-noargs":
+		// a directive that declares no argument at all, applied with one
+		s.Dirs = append(s.Dirs, &hx.DirDef{Name: "mut", On: []string{"OBJECT", "INTERFACE", "UNION", "ENUM", "INPUT_OBJECT", "SCALAR"}})
+		td := s.Types[pick(len(s.Types), "site")]
+		td.Dirs = append(td.Dirs, hx.DirUse{Name: "mut", Args: []hx.KV{{Key: "zzz", V: []hx.Val{hx.I64(1), hx.Nil(), hx.Str("x")}[pick(3, "value")]}}})
 		m.Names, m.Position = []string{"mut", td.Name}, "type:"+td.Kind
 	case "dir-uncoercible-arg-null":
 		// null written for an argument declared non-null (alone, after or before a valid argument)
